@@ -310,6 +310,29 @@ def r2_delegation(rep, ctx):
                 continue
             rt = dres.term(rst.value)
             may_be_default = any(any(s_[0] == "attr" and s_[2] == "default_value" for s_ in walk(a_)) for a_ in alternatives(rt))
+            if not may_be_default and rn in reach_ and "unit" in fn.params:
+                # a constant handed back although a unit may have been requested: only as the fallback for a category
+                # info that has no default value at all - inside `except AttributeError`, or where the looked-up default
+                # *is* the placeholder that getattr() was given (`d = getattr(ci, 'default_value', MISSING); if d is MISSING`)
+                p_ = rst
+                in_handler = False
+                while p_ is not None and p_ is not fn.node:
+                    if isinstance(p_, ast.ExceptHandler) and p_.type is not None and "AttributeError" in ast.unparse(p_.type):
+                        in_handler = True
+                    p_ = getattr(p_, "_parent", None)
+                is_placeholder = False
+                for k_, l_, r__, pos_ in nfacts(dcfg, rn):
+                    if k_ == "is" and pos_ and r__ is not None:
+                        lt_, rt_ = dres.term(l_), dres.term(r__)
+                        for x_, y_ in ((lt_, rt_), (rt_, lt_)):
+                            al_ = alternatives(x_)
+                            if len(al_) == 2 and any(a_[0] == "attr" and a_[2] == "default_value" for a_ in al_) and y_ in al_ and not (y_[0] == "attr" and y_[2] == "default_value"):
+                                is_placeholder = True
+                n += 1
+                rep.check(in_handler or is_placeholder, "C02.R2", "%s._GetDefaultValue:fallback-only-without-default:%s" % (cname, norm(ast.unparse(rst))[:40]),
+                          "a constant is returned unconverted only as the fallback for a category info without a default value",
+                          "%s._GetDefaultValue can return `%s` without conversion on a path where the category has a default value and a unit was requested (a test on the default's truth value merges 'no default' with 'default is 0'): an object created from a category default in a non-default unit does not carry the amount of that default" % (cname, norm(ast.unparse(rst.value))[:30]),
+                          node=rst, fn=fn)
             if may_be_default:
                 n += 1
                 rep.check(rn not in reach_, "C02.R2", "%s._GetDefaultValue:converted-on-every-path:%s" % (cname, norm(ast.unparse(rst))[:40]),
